@@ -4,7 +4,7 @@ CONSTANTS
   Runtimes = {"threaded", "tokio"}
   MaxReq = 1
   Kinds = {"close", "keep", "ws"}
-  SigTwice = TRUE
+  SigTwice = FALSE
   Dev = {}
 SPECIFICATION Spec
 INVARIANTS TypeOK Inv_PortFree Inv_ServingBefore Inv_NoTruncation Inv_Owned Inv_DispatchedKept Inv_WakeUnserved
